@@ -55,9 +55,9 @@ func init() {
 
 // c20Slack measures what the heap machine takes as a parameter: the spare capacity append leaves when it has to
 // reallocate a full slice of length n.
-func c20Slack() sx.SX {
+func c20Slack(upto int) sx.SX {
 	var t sx.List
-	for n := 0; n < 64; n++ {
+	for n := 0; n < upto; n++ {
 		s := make([]*variants.Variant, n, n)
 		s = append(s, nil)
 		t = append(t, sx.N(cap(s)-n-1))
@@ -104,7 +104,8 @@ func c20Host(ctx *Ctx) hostVal {
 }
 
 func genC20(ctx *Ctx) {
-	slack := c20Slack()
+	slack := c20Slack(64)
+	bigSlack := c20Slack(700)
 	emit := func(ops sx.List, nt bool) {
 		ctx.Input(append(sx.List{slack}, ops...), nt)
 	}
@@ -231,6 +232,24 @@ func genC20(ctx *Ctx) {
 			ctx.Count("padding-in-place")
 			emit(ops, true)
 		}
+	}
+	// scale: lists and arrays of hundreds of elements - a caller list grown by 130 .. 300 appends, a variant built from it,
+	// indexed writes far past the end, SetLength, clones, writes to the caller's list afterwards
+	for _, L := range []int{70, 130, 300} {
+		var ops sx.List
+		ops = append(ops, sx.L(sx.I(7), sx.N(0), sx.I(0)))
+		for x := 0; x < L; x++ {
+			h := c20Host(ctx)
+			ops = append(ops, sx.L(sx.I(6), sx.N(0), h.enc, sx.N(h.kind), sx.I(0)))
+		}
+		ops = append(ops, sx.L(sx.I(1), sx.N(0), sx.N(0), sx.N(1)), sx.L(sx.I(2), sx.N(1), sx.N(0), sx.N(0)))
+		h := c20Host(ctx)
+		ops = append(ops, sx.L(sx.I(3), sx.N(1), sx.N(L+150), h.enc, sx.N(h.kind), sx.I(0)), sx.L(sx.I(4), sx.N(0), sx.N(L+90), sx.I(0)))
+		h = c20Host(ctx)
+		ops = append(ops, sx.L(sx.I(5), sx.N(0), sx.N(L/2), h.enc, sx.N(h.kind), sx.I(0)), sx.L(sx.I(3), sx.N(0), sx.N(L+91), h.enc, sx.N(h.kind), sx.I(0)),
+			sx.L(sx.I(2), sx.N(2), sx.N(1), sx.N(1)), sx.L(sx.I(7), sx.N(0), sx.I(0)), sx.L(sx.I(6), sx.N(0), h.enc, sx.N(h.kind), sx.I(0)))
+		ctx.Count("scale-lists")
+		ctx.Input(append(sx.List{bigSlack}, ops...), true)
 	}
 	// a variant that shares a list by Assign is then set to another, shorter list: the other variant keeps its elements
 	for L := 1; L <= 4; L++ {
